@@ -405,6 +405,18 @@ func runC12(c *Ctx) {
 
 	checkOffsetStores(c, "R5", nil)
 
+	// ---------- R7 the goroutines of a transfer end before the method returns (shared with C04.R7) ----------
+	// the feeders read f.handle without the lock; that is sound only because the method holds f.mu until they
+	// have ended, so Close cannot clear the handle (or send CLOSE) underneath them
+	for _, name := range []string{"(*File).readAt", "(*File).WriteTo", "(*File).writeAtConcurrent", "(*File).readFromWithConcurrency"} {
+		fn := p.Func(name)
+		if fn == nil {
+			c.missing("R7", name)
+			continue
+		}
+		checkMapReduce(c, fn, name, "R7", true)
+	}
+
 	// ---------- R6 Seek ----------
 	if sk := p.Func("(*File).Seek"); sk == nil {
 		c.missing("R6", "(*File).Seek")
